@@ -151,6 +151,27 @@ DivHist(v) ==
            IF code # r.code \/ v.storedPost # r.stored \/ v.cachePost # r.cache THEN {"hist_delcred"} ELSE {}
     [] OTHER -> {}
 
+\* ------------------------------------------------------------------ tags given at creation time (real initTopicNewGrp / replyCreateUser)
+\* stored = the tag list of the created object in the store ({} when nothing was created); serverTags = tags the
+\* server itself derives for the account (basic:<login> when the basic authenticator indexes logins)
+CheckCreate(v) ==
+  LET imm == S(v.imm)
+      foreign == UNION {NsTags(S(v.stored), ns) : ns \in imm} \ S(v.serverTags)
+      own == {t \in S(v.stored) : t \notin S(v.serverTags)}
+      src == {LowerS(Trim(v.raw[i])) : i \in DOMAIN v.raw}
+  IN (IF foreign # {} THEN {"CreationStoresNoReservedTag:" \o v.kind} ELSE {})
+     \cup (IF ~v.ok /\ v.created THEN {"RejectedChangesNothing:creation_" \o v.kind} ELSE {})
+     \cup (IF v.created /\ ~TagsNormal(v.stored, v.max + Len(v.serverTags)) THEN {"StoredTagsNormalised:creation_" \o v.kind} ELSE {})
+     \cup (IF own \ src # {} THEN {"StoredTagsNormalised:invented_at_creation"} ELSE {})
+     \cup (IF v.ok /\ v.kind # "acc" /\ S(v.cache) # S(v.stored) THEN {"TopicTagCacheMatchesStore:after_create"} ELSE {})
+
+DivCreate(v) ==
+  LET r == CreateTags([nil |-> v.rawNil, tags |-> v.raw], S(v.imm), v.max) IN
+    IF (r.code = "ok") # v.ok \/ v.ok # v.created
+       \/ (v.ok /\ S(v.stored) # S(r.tags) \cup S(v.serverTags))
+       \/ (v.ok /\ v.kind # "acc" /\ (v.stored # r.tags \/ v.cache # r.tags))
+    THEN {"create"} ELSE {}
+
 Check(v) ==
   CASE v.op = "parse"      -> CheckParse(v)
     [] v.op = "normalize"  -> CheckNormalize(v)
@@ -158,6 +179,7 @@ Check(v) ==
     [] v.op = "settags"    -> CheckSetTags(v)
     [] v.op = "fnd"        -> CheckFnd(v)
     [] v.op = "hist"       -> CheckHist(v)
+    [] v.op = "create"     -> CheckCreate(v)
     [] OTHER               -> {"UnknownVector:op"}
 
 Diverge(v) ==
@@ -167,6 +189,7 @@ Diverge(v) ==
     [] v.op = "settags"    -> DivSetTags(v)
     [] v.op = "fnd"        -> DivFnd(v)
     [] v.op = "hist"       -> DivHist(v)
+    [] v.op = "create"     -> DivCreate(v)
     [] OTHER               -> {}
 
 Init == cur = 0 /\ bad = {} /\ div = {}
